@@ -247,6 +247,97 @@ fn run_refresh(ttl: u32, answer_mask: u32, variant: u64, trace: bool) -> CaseRes
     res
 }
 
+// ---------------------------------------------------------------- S: refresh of a resolved host's address
+
+/// A host-name search is open and one address record of TTL `ttl` (>= 2) arrives.  obs: 0 the daemon
+/// is woken exactly when it asked to be; 1..=4 its next wake-up after the record arrived comes late,
+/// at 82 / 90 / 97 / 99.9 % of the record's life (the marks before that are skipped); `answered`: a fresh
+/// copy arrives with the refresh query, or 300 ms before the 80 % mark; `v6`: the record is an AAAA.
+/// The refresh query is told from the search's own repeated query on the wire: it asks the one
+/// record type only, the search asks A and AAAA together.
+fn run_host_refresh(ttl: u32, obs: u64, answered: u64, v6: bool, trace: bool) -> CaseResult {
+    let mut res = CaseResult::default();
+    let mut w = World::one(if v6 { lay_dual() } else { lay_v4() });
+    w.trace = trace;
+    w.ds[0].h.set_ip_check_interval(0).unwrap();
+    w.poke(0);
+    let rx = w.ds[0].h.resolve_hostname("h.local.", None).unwrap();
+    let ch = w.add_host(0, rx);
+    w.poke(0);
+    w.advance(130);
+    let host = n("h.local");
+    let life = ttl as u64 * 1000;
+    let rec = || if v6 { aaaa(&host, "fd00::9".parse().unwrap(), ttl) } else { a(&host, [10, 0, 0, 9], ttl) };
+    let src = if v6 { PEER0_V6 } else { PEER0 };
+    let qt = if v6 { T_AAAA } else { T_A };
+    let mut arrival = w.now;
+    w.deliver(0, IF0, src, build(&response(vec![rec()])));
+    // (copy arrival, first observation at or after its 80 % mark)
+    let mut copies: Vec<(u64, u64)> = vec![];
+    let late = |arr: u64| arr + [0, life * 82 / 100, life * 90 / 100, life * 97 / 100, life * 999 / 1000][obs as usize];
+    let first_obs = |arr: u64| if obs == 0 { arr + life * 80 / 100 } else { late(arr) };
+    if answered == 2 {
+        // a fresh copy shortly before the mark: the schedule restarts from it
+        w.run_until(arrival + life * 80 / 100 - 300);
+        arrival = w.now;
+        w.deliver(0, IF0, src, build(&response(vec![rec()])));
+    }
+    let o = first_obs(arrival);
+    if obs == 0 {
+        w.run_until(o);
+    } else {
+        w.set_now(o);
+        w.poke(0);
+    }
+    copies.push((arrival, o));
+    if answered == 1 {
+        // the responder answers the refresh query
+        arrival = w.now;
+        w.deliver(0, IF0, src, build(&response(vec![rec()])));
+        let o = arrival + life * 80 / 100;
+        w.run_until(o);
+        copies.push((arrival, o));
+    }
+    let expiry = arrival + life;
+    w.run_until(expiry + 2500);
+    let all = outs(&w, 0, 0);
+    // (every question goes out once per IP family of the interface: the copies over one family are counted)
+    let refresh_q: Vec<u64> = all.iter().filter(|(_, o)| o.dst.is_ipv6() == v6 && o.msg.as_ref().is_ok_and(|m| !m.is_response() && m.questions.len() == 1 && asks(m, &host, qt))).map(|(t, _)| *t).collect();
+    let ctx = format!("ttl {ttl} obs {obs} answered {answered} v6 {v6}: single-type questions at {:?}; copies (arrival, first observation past 80 %) {:?}; expiry +{}", refresh_q.iter().map(|t| t - T0).collect::<Vec<_>>(), copies.iter().map(|c| (c.0 - T0, c.1 - T0)).collect::<Vec<_>>(), expiry - T0);
+    for (k, (arr, o)) in copies.iter().enumerate() {
+        res.count("host_marks_checked", 1);
+        let n_at = refresh_q.iter().filter(|t| *t == o).count();
+        if n_at == 0 {
+            let last_second = *o + 1000 >= arr + life;
+            res.viols.push(viol(format!("C11|S|no-refresh-query-for-a-resolved-host-address|{}", if ttl <= 5 { "ttl-up-to-5s" } else if last_second { "first-observation-in-the-last-second" } else { "other" }), ctx.clone()));
+        }
+        // once per copy
+        let upto = copies.get(k + 1).map_or(expiry, |c| c.0);
+        let n_life = refresh_q.iter().filter(|t| **t > *arr && **t < upto && **t != *o).count() + n_at.saturating_sub(1);
+        if n_life > 0 {
+            res.viols.push(viol("C11|S|host-address-refreshed-more-than-once-or-off-the-mark", ctx.clone()));
+        }
+    }
+    if refresh_q.iter().any(|t| *t >= expiry) {
+        res.viols.push(viol("C11|S|record-query-at-or-after-expiry", ctx.clone()));
+    }
+    // the address is reported removed exactly at the expiry of the last copy
+    let removed: Vec<u64> = hevs(&w, 0, ch, 0).iter().filter(|(_, e)| matches!(e, HEv::Removed(..))).map(|(t, _)| *t).collect();
+    if removed != vec![expiry] {
+        res.viols.push(viol("C11|S|host-address-not-removed-at-ttl", format!("AddressesRemoved at {:?}; {ctx}", removed.iter().map(|t| t - T0).collect::<Vec<_>>())));
+    } else {
+        res.count("host_removal_at_ttl", 1);
+    }
+    if let Some(f) = daemon_fault(&w, 0) {
+        res.viols.push(viol("C11|daemon-fault", f));
+    }
+    res.nontrivial = true;
+    res.transitions = w.steps;
+    res.outcome = outcome_hash(&w.log);
+    res.states = final_states(&w);
+    res
+}
+
 // ---------------------------------------------------------------- S: cache flush on addresses
 
 const GAPS: [u64; 6] = [0, 500, 1000, 1001, 2000, 3000];
@@ -381,6 +472,19 @@ pub fn check(tier: &str) -> i32 {
         run: Box::new(move |i, tr| run_refresh(s_ttls[(i % ns) as usize], ((i / ns) % 16) as u32, i / ns / 16, tr)),
     };
     rep.run_part(&refresh, Duration::from_secs(300));
+
+    let h_ttls: Vec<u32> = if thorough { vec![2, 3, 4, 5, 6, 7, 10, 20, 60, 120, 4500, 86_400] } else { vec![2, 3, 5, 6, 10, 120] };
+    let hdims = [h_ttls.len() as u64, 5, 3, 2];
+    let hostr = FnPart {
+        name: "S-refresh-of-a-resolved-host-address".into(),
+        rule: format!("host-name search; one address record with TTL in {h_ttls:?} x the daemon's first wake-up after the 80 % mark comes (on time | late, at 82 / 90 / 97 / 99.9 % of the life) x (no answer | the refresh query is answered with a fresh copy | a fresh copy arrives 300 ms before the mark) x (A | AAAA); exactly one question for just that record type at the first observation past the mark of each copy, none at or after expiry, AddressesRemoved exactly at the expiry of the last copy"),
+        n: product(&hdims),
+        describe: Box::new({ let h = h_ttls.clone(); move |i| { let x = unrank(i, &hdims); format!("ttl {} obs {} answered {} v6 {}", h[x[0] as usize], x[1], x[2], x[3]) } }),
+        run: Box::new({ let h = h_ttls.clone(); move |i, tr| { let x = unrank(i, &hdims); run_host_refresh(h[x[0] as usize], x[1], x[2], x[3] == 1, tr) } }),
+    };
+    rep.run_part(&hostr, Duration::from_secs(300));
+    rep.require("S-refresh-of-a-resolved-host-address", "host_marks_checked");
+    rep.require("S-refresh-of-a-resolved-host-address", "host_removal_at_ttl");
 
     let dims = [GAPS.len() as u64, 2, 2, 2, 3, 2, 2, 2];
     let flush = FnPart {
